@@ -499,6 +499,9 @@ def run_guided_models(ctx, exe):
             rep.drift += 1
             if ndrift + nout <= 3:
                 rep.note("guided %s: %s; schedule %s" % (sc["model"], bad, json.dumps(sc["sched"])))
+    if scns and ndrift == len(scns):
+        rep.note("guided replay: no behaviour found the stream.* schedule points - this tree lacks engines/stream/hooks.patch (the race part then only "
+                 "interleaves at the stop.* / spin_wait points)")
     rep.note("guided replay of the race models: %d behaviours (edge covers of StopImmediately.tla and TakeUntil.tla) executed at the corresponding "
              "schedule points, %d validated against StreamMon, %d with schedule drift, %d with an outcome other than predicted" % (len(scns), n, ndrift, nout))
 
